@@ -167,6 +167,8 @@ def _key_use(n: ast.Name, p: Optional[ast.AST], literal_lists: Set[str]) -> Tupl
         if all(isinstance(o, ast.Call) and norm(o.func) == "str" for o in others):
             return True, "compare-canonical-index"
         return False, "compare"
+    if isinstance(p, ast.Subscript) and p.slice is n and isinstance(p.value, ast.Attribute) and p.value.attr in ("_properties", "_getters", "_setters"):
+        return True, f"property-dictionary:{p.value.attr}"
     if isinstance(p, ast.FormattedValue):
         return True, "message"
     if isinstance(p, ast.IfExp):
@@ -194,9 +196,22 @@ def rule_prototype_values(ctx, rep, rid: str) -> None:
                 loc = f"{f.module.rel}:{n.lineno}"
                 ok = False
                 why = ""
+
+                def is_function_value(e) -> bool:
+                    """e is known to be a script function object (not a JSObject): its `_prototype` attribute is
+                    the function's `prototype` PROPERTY, which may hold any script value."""
+                    if not isinstance(e, ast.Name):
+                        return False
+                    if any(pol and norm(tst) == f"isinstance({e.id}, JSFunction)" for tst, pol in guards_of(n, f.node)):
+                        return True
+                    return any(isinstance(d, ast.Call) and call_name(d) == "JSFunction" for d in _defs_of(f, e.id))
+
+                if is_function_value(t.value):
+                    rep.ok(rid, key, {"because": "the prototype PROPERTY of a function object (any script value); every site that links an instance to it is checked separately"})
+                    continue
                 if isinstance(v, ast.Constant) and v.value is None:
                     ok, why = True, "None"
-                elif isinstance(v, ast.Attribute) and v.attr in ("_prototype", "_object_prototype", "_array_prototype"):
+                elif isinstance(v, ast.Attribute) and v.attr in ("_prototype", "_object_prototype", "_array_prototype") and not is_function_value(v.value):
                     ok, why = True, "an existing prototype link"
                 elif isinstance(v, ast.Name):
                     # guarded by isinstance(v, JSObject) / constructed locally / a parameter of JSObject.__init__
@@ -289,7 +304,7 @@ def rule_internal_iterators(ctx, rep, rid: str) -> None:
 
 
 def rule_native_results_normalised(ctx, rep, rid: str) -> None:
-    rep.rule(rid, "every result of a dynamically called host function that the interpreter pushes or returns as a script value has Python None mapped to undefined; no literal None is stored as a property value", floor=6)
+    rep.rule(rid, "every result of a dynamically called host function that the interpreter pushes or returns as a script value has Python None mapped to undefined; no literal None is stored as a property value", floor=3)
     vmcls = ctx.facts.vm_dispatcher()[0].cls
     for m in vmcls.methods.values():
         for cs in ctx.cg.sites_of[id(m)]:
@@ -439,6 +454,22 @@ def rule_inherited_visibility(ctx, rep, rid: str) -> None:
                     rep.bad(rid, key, f"{f.qual} {'does not consult' if must else 'consults'} the prototype link", f.loc)
 
 
+def _chain_branch(f: Func, var: str, cls: str):
+    """Body of the `isinstance(var, cls)` branch in f's top-level receiver dispatch chain."""
+    for s_ in f.body():
+        if isinstance(s_, ast.If):
+            node = s_
+            while isinstance(node, ast.If):
+                t = node.test
+                if isinstance(t, ast.Call) and norm(t.func) == "isinstance" and isinstance(t.args[0], ast.Name) and t.args[0].id == var:
+                    k = t.args[1]
+                    names = [k.id] if isinstance(k, ast.Name) else [c.id for c in getattr(k, "elts", []) if isinstance(c, ast.Name)]
+                    if cls in names:
+                        return node.body
+                node = node.orelse[0] if len(node.orelse) == 1 and isinstance(node.orelse[0], ast.If) else None
+    return None
+
+
 def _chain_classes(f: Func, var: str) -> List[Tuple[str, int]]:
     out = []
     for s in f.body():
@@ -472,22 +503,81 @@ def rule_get_set_agreement(ctx, rep, rid: str) -> None:
         key = f"_set_property:{c}"
         if any(a in sc for a in anc):
             rep.ok(rid, key, {"handled_by": [a for a in anc if a in sc][0]})
+            # the handling branch must do something on every path: store, call into the object model, or throw
+            hb = [a for a in anc if a in sc][0]
+            branch = _chain_branch(sp, "obj", hb)
+            if branch is not None:
+                from ..cfg import CFG
+
+                cfg = CFG(branch)
+
+                def effect(nd) -> bool:
+                    a = nd.ast if nd.ast is not None else None
+                    if nd.kind == "raise":
+                        return True
+                    if a is None or nd.kind in ("test", "iter"):
+                        return False
+                    for x in ast.walk(a):
+                        if isinstance(x, (ast.Assign, ast.AugAssign)):
+                            tg = x.targets if isinstance(x, ast.Assign) else [x.target]
+                            if any(isinstance(t_, (ast.Attribute, ast.Subscript)) for t_ in tg):
+                                return True
+                        if isinstance(x, ast.Call) and isinstance(x.func, ast.Attribute) and not norm(x.func).startswith(("math.", "str.")) and x.func.attr not in ("is_integer", "startswith", "endswith", "get_setter", "get_getter", "has", "get"):
+                            return True
+                        if isinstance(x, ast.Raise):
+                            return True
+                    return False
+
+                blocked = {nd.id for nd in cfg.nodes if effect(nd)}
+                pth = cfg.path_avoiding(cfg.entry.id, lambda nd: nd.id == cfg.exit.id, blocked)
+                k2 = f"_set_property:{hb}:every-path-writes"
+                if pth is None:
+                    rep.ok(rid, k2)
+                elif not any(f_.key == k2 for f_ in rep.findings):
+                    from ..cfg import path_str
+
+                    rep.bad(rid, k2, f"the property-write branch for {hb} has a path [{path_str(pth)}] that neither stores, calls into the object model nor throws: the assignment is silently dropped", f"{sp.module.rel}:{branch[0].lineno}")
         else:
             rep.bad(rid, key, f"property reads special-case {c} but property writes have no branch for it (nor for a superclass): assignments such as F.prototype = {{…}} or F.x = 1 are silently dropped", sp.loc)
 
 
+def _call_protocol_helpers(ctx, vmcls) -> List[Func]:
+    """Methods that take a host callable as a parameter, test it for the this-taking wrapper class and call it
+    with `this` first in that case and without it otherwise."""
+    out = []
+    for m in vmcls.all_methods:
+        ps = m.params()
+        for p in ps:
+            if p == "self":
+                continue
+            tests = [n for n in m.own_nodes() if isinstance(n, ast.If) and norm(n.test) == f"isinstance({p}, JSBoundMethod)"]
+            if not tests:
+                continue
+            t = tests[0]
+            with_this = any(isinstance(c, ast.Call) and isinstance(c.func, ast.Name) and c.func.id == p and c.args and not isinstance(c.args[0], ast.Starred) for s_ in t.body for c in ast.walk(s_))
+            without = any(isinstance(c, ast.Call) and isinstance(c.func, ast.Name) and c.func.id == p and c.args and isinstance(c.args[0], ast.Starred) for s_ in t.orelse for c in ast.walk(s_))
+            if with_this and without:
+                out.append(m)
+    return out
+
+
 def rule_call_protocol(ctx, rep, rid: str) -> None:
-    rep.rule(rid, "every interpreter site that calls a script-held callable distinguishes the three callee kinds (script function, this-taking bound native, plain host callable) the way method calls do", floor=5)
+    rep.rule(rid, "every interpreter site that calls a script-held callable distinguishes the three callee kinds (script function, this-taking bound native, plain host callable) the way method calls do, itself or through the interpreter's call helper", floor=5)
     vmcls = ctx.facts.vm_dispatcher()[0].cls
+    helpers = _call_protocol_helpers(ctx, vmcls)
+    hids = {id(h) for h in helpers}
+    for h in helpers:
+        rep.ok(rid, f"{h.qual}:protocol-helper", {"distinguishes": "JSBoundMethod(this, *args) / plain(*args)"})
     funcs = [f for f in ctx.tree.funcs if f.module.name in ("vm", "context") and (f.cls is vmcls or f.module.name == "context")]
     for f in funcs:
+        if id(f) in hids:
+            continue
         for n in f.own_nodes():
             if isinstance(n, ast.If) and isinstance(n.test, ast.Call) and norm(n.test.func) == "isinstance" and len(n.test.args) == 2 and norm(n.test.args[1]) == "JSFunction" and isinstance(n.test.args[0], ast.Name):
                 var = n.test.args[0].id
-                # the chain continues with `elif callable(var)` that calls var(...)
                 node = n
                 kinds = ["JSFunction"]
-                calls_plain = False
+                plain_bodies = []
                 while len(node.orelse) == 1 and isinstance(node.orelse[0], ast.If):
                     node = node.orelse[0]
                     t = norm(node.test)
@@ -495,28 +585,26 @@ def rule_call_protocol(ctx, rep, rid: str) -> None:
                         kinds.append("JSBoundMethod")
                     elif t == f"callable({var})":
                         kinds.append("callable")
-                        calls_plain = any(isinstance(c, ast.Call) and isinstance(c.func, ast.Name) and c.func.id == var for s in node.body for c in ast.walk(s))
-                if not (node is not n and calls_plain):
-                    # else-branch form: `else: result = var(a, b)`
-                    if n.orelse and not isinstance(n.orelse[0], ast.If) and any(isinstance(c, ast.Call) and isinstance(c.func, ast.Name) and c.func.id == var for s in n.orelse for c in ast.walk(s)):
-                        kinds.append("callable")
-                        calls_plain = True
-                if not calls_plain:
+                        plain_bodies.append(node.body)
+                if node.orelse and not (len(node.orelse) == 1 and isinstance(node.orelse[0], ast.If)):
+                    plain_bodies.append(node.orelse)
+                direct = via = False
+                for body in plain_bodies:
+                    for s_ in body:
+                        for c in ast.walk(s_):
+                            if isinstance(c, ast.Call) and isinstance(c.func, ast.Name) and c.func.id == var:
+                                direct = True
+                            if isinstance(c, ast.Call) and c.args and isinstance(c.args[0], ast.Name) and c.args[0].id == var:
+                                cs = ctx.cg.site_of_call.get(id(c))
+                                if cs and any(id(t_) in hids for t_ in cs.targets):
+                                    via = True
+                if not direct and not via:
                     continue
                 key = f"{f.qual}:{var}"
-                if "JSBoundMethod" in kinds:
-                    rep.ok(rid, key, {"kinds": kinds})
-                else:
+                if direct and "JSBoundMethod" not in kinds:
                     rep.bad(rid, key, f"{f.qual} calls `{var}` as a plain host callable whenever it is not a script function: a this-taking bound native (Object.prototype.toString/valueOf/hasOwnProperty, Array.prototype.sort) receives the first argument as `this`, or raises a host TypeError when called with none", f"{f.module.rel}:{n.lineno}")
-    # direct zero-argument calls of a looked-up method value (ToPrimitive, accessors)
-    for f in funcs:
-        for n in f.own_nodes():
-            if isinstance(n, ast.If) and norm(n.test).startswith("callable(") and isinstance(n.test, ast.Call) and isinstance(n.test.args[0], ast.Name):
-                var = n.test.args[0].id
-                par = getattr(n, "_parent", None)
-                if isinstance(par, ast.If) and n in par.orelse and "JSFunction" in norm(par.test):
-                    continue  # handled above
-    return
+                else:
+                    rep.ok(rid, key, {"kinds": kinds, "through_helper": via})
 
 
 def rule_no_stale_link_caches(ctx, rep, rid: str) -> None:
